@@ -269,6 +269,26 @@ def _bw(ctx, clause, site, T, X, B, n, tags=()):
     ctx.check(clause, ratio, 1.0, site=site, tags=tags)
 
 
+def _rhs_patterns(rng, B):
+    n, k = B.shape
+    c = refq.fa(B)
+    out = {}
+    if k >= 2:
+        d = c.copy(); d[:, 0] = 0.0; out["zero_first_column"] = refq.qa(d)
+        d = c.copy(); d[:, k - 1] = 0.0; out["zero_last_column"] = refq.qa(d)
+    if k >= 3:
+        d = c.copy(); d[:, :k - 1] = 0.0; out["only_last_column_nonzero"] = refq.qa(d)
+    if n >= 2:
+        d = c.copy(); d[: n // 2] = 0.0; out["zero_leading_rows"] = refq.qa(d)
+        d = c.copy(); d[n // 2:] = 0.0; out["zero_trailing_rows"] = refq.qa(d)
+        d = np.zeros_like(c); d[int(rng.integers(0, n)), int(rng.integers(0, k))] = c[0, 0]; out["single_entry"] = refq.qa(d)
+    d = np.zeros_like(c)
+    for j in range(k):
+        d[(j * 2) % n, j, 0] = 1.0
+    out["unit_vectors"] = refq.qa(d)
+    return out
+
+
 def _tri(spec, ctx, R):
     U, S = R.utils, R.solver
     rng = gen.rng_for(spec["seed"], "c16tri", spec["idx"])
@@ -285,6 +305,24 @@ def _tri(spec, ctx, R):
             ctx.check(clause, False, site=name, detail={"exception": repr(e)})
             continue
         _bw(ctx, clause, name, T, X, B, n)
+        # right-hand sides with exact-zero structure: a zero first / middle / last column, zero leading or trailing rows, one non-zero
+        # entry, unit vectors (each column must be solved as if it stood alone)
+        for lab, Bp in _rhs_patterns(rng, B).items():
+            try:
+                Xp = f(T.copy(), Bp.copy())
+            except Exception as e:
+                ctx.check(clause, False, site=name + ":rhs_" + lab, detail={"exception": repr(e)})
+                continue
+            _bw(ctx, clause, name + ":rhs_" + lab, T, Xp, Bp, n)
+            # column independence: the block solve equals the column-by-column solves
+            try:
+                cols = [f(T.copy(), Bp[:, j:j + 1].copy()) for j in range(Bp.shape[1])]
+                dev = max(refq.fro(Xp[:, j:j + 1] - cols[j]) for j in range(Bp.shape[1]))
+                ctx.check(clause, dev, C * (n + 1) * refq.EPS * max(refq.fro(Xp), 1e-300) * max(1.0, float(np.max(dml if T is Lm else dmu)) / float(np.min(dml if T is Lm else dmu))) + 1e-300,
+                          site=name + ":columns_independent:" + lab)
+            except Exception as e:
+                ctx.check(clause, False, site=name + ":columns_independent:" + lab, detail={"exception": repr(e)})
+    ctx.hit("rhs:zero_structured")
     # component-form back substitution (documented to overwrite b: always on copies)
     Tc, Bc = refq.fa(Um), refq.fa(B)
     tags = [f"rhs={k}"] + (["multi_rhs"] if k > 1 else []) + (["small_diag"] if min(dmu) < 1e-3 else [])
